@@ -279,17 +279,45 @@ def extract(facts, rep):
                     if i not in ct[1]:
                         for jj in range(4):
                             T['sign'].setdefault((nm, jj), sg)
-    # ori_pres_state
-    bs = facts.find(r'^yui_link::link::link::Link::ori_pres_state::\{closure#\d+\}$')
+    # ori_pres_state: the function mapped over the crossing signs (a closure or a named helper), folded at Pos and Neg
     T['ori'] = {}
-    for b in bs:
-        rep.saw(b)
-        for p in SymEx(b).run():
-            if p.end != 'return':
-                continue
-            for e in p.branches():
-                if sk(e.term).startswith('is_positive('):
-                    T['ori']['Pos' if e.value == 'else' else 'Neg'] = p.ret[1] if p.ret[0] == 'const' else None
+    ob = facts.bodies.get('yui_link::link::link::Link::ori_pres_state')
+    if ob is not None:
+        rep.saw(ob)
+        from dtree import DTree as _DT, Stuck as _Stuck
+        dto = _DT(facts)
+        sign_adt = next((ad for an, ad in facts.adts.items() if an.endswith('::Sign') and ad.get('kind') == 'Enum'), None)
+        sdisc = {}
+        if sign_adt:
+            for i_, v_ in enumerate(sign_adt['variants']):
+                d_ = int(v_.get('discr', i_))
+                sdisc[v_['name']] = d_ if d_ >= 0 else d_ + 256
+        fmap = None
+        for p in SymEx(ob, havoc_loops=True).run():
+            for e in p.calls():
+                if e.name.split('::')[-1] == 'map' and len(e.args) == 2 and 'crossing_signs' in sk(e.args[0]):
+                    fmap = strip(e.args[1])
+        if fmap is not None and fmap[0] in ('closure', 'fn'):
+            for sg in ('Pos', 'Neg'):
+                def atom(t, ev_, sg=sg):
+                    if t[0] == 'call' and t[1].split('::')[-1] in ('is_positive', 'is_negative') and len(t[2]) == 1:
+                        return (int((sg == 'Pos') == (t[1].split('::')[-1] == 'is_positive')),)
+                    if t[0] == 'discr' and strip(t[1]) in (('arg', 1), ('arg', 2)) and sg in sdisc:
+                        return (sdisc[sg],)
+                    if t[0] == 'adt' and t[1].endswith('Bit') and t[2] in ('Bit0', 'Bit1'):
+                        return (int(t[2][-1]),)
+                    return None
+                try:
+                    if fmap[0] == 'closure':
+                        v_, _ = dto.decide(fmap[1], {1: fmap, 2: 'SIGN'}, atom)
+                    else:
+                        v_, _ = dto.decide(fmap[1], {1: 'SIGN'}, atom)
+                    if isinstance(v_, dict) and v_.get('<variant>') in ('Bit0', 'Bit1'):
+                        v_ = int(v_['<variant>'][-1])
+                    if v_ in (0, 1):
+                        T['ori'][sg] = v_
+                except _Stuck:
+                    pass
     # braid closure
     b = one(r'^yui_link::braid::Braid::closure$')
     rep.saw(b)
